@@ -13,6 +13,22 @@ for f in $REPO/compat/libc/stdlib/{strtol,strtoul,strtoll,strtoull,atol,qsort,bs
     par igc_one $BUILD/shim $o $f
     OBJS="$OBJS $o"
 done
+# BUILD MATRIX: the same sources the way the project's own build compiles them (make.py: plain gcc -O3, no -fno-builtin;
+# also -O2 and -Os), with plain char unsigned (ARM/PowerPC/RISC-V), and by the other compiler. Each variant is linked with
+# the same harness objects into its own executable and re-runs a cheap selection of the sub-checks.
+SRCS="$REPO/compat/libc/stdlib/strtol.c $REPO/compat/libc/stdlib/strtoul.c $REPO/compat/libc/stdlib/strtoll.c $REPO/compat/libc/stdlib/strtoull.c $REPO/compat/libc/stdlib/atol.c $REPO/compat/libc/stdlib/qsort.c $REPO/compat/libc/stdlib/bsearch.c $REPO/compat/libc/inttypes/strtoimax.c $REPO/compat/libc/inttypes/strtoumax.c"
+variant() { # name cc opt mode cflags
+    local v=$1 f o
+    for f in $SRCS; do
+        o=$BUILD/${v}_$(basename $f .c).o
+        IGC_CC=$2 IGC_OPT=$3 IGC_MODE="$4" IGC_CFLAGS="$5" par igc_one $BUILD/shim $o $f
+        eval "VOBJS_$v=\"\$VOBJS_$v $o\""
+    done
+}
+variant o2n gcc -O2 "" ""
+variant osn gcc -Os "" ""
+variant o3u gcc -O3 "" "-funsigned-char"
+variant clang clang -O2 "-fno-builtin" ""
 # rand.c is anchored only as qsort's pivot source; it must still compile
 par igc_one $BUILD/shim $BUILD/igc_rand_unused.o $REPO/compat/libc/stdlib/rand.c
 CXX="g++ -std=c++17 -O2 -g -fno-builtin -I$MC -I$H"
@@ -25,3 +41,10 @@ for fn in strtol strtoul strtoll strtoull strtoimax strtoumax atoi atol qsort bs
 done
 g++ $BUILD/c11_strto.o $BUILD/c11_sort.o $BUILD/c11_large.o $OBJS $BUILD/mc.o -o $BUILD/c11
 echo "stdlib $BUILD/c11" > $BUILD/runs.txt
+SEL=strto_overflow_boundaries,strto_long_texts,strto_every_byte_after_digit,ato_in_range_boundaries,qsort_large_arrays,bsearch_large_arrays,bsearch_all_sorted_arrays
+for v in o2n osn o3u clang; do
+    eval "vo=\$VOBJS_$v"
+    igc_resolve $vo
+    g++ $BUILD/c11_strto.o $BUILD/c11_sort.o $BUILD/c11_large.o $vo $BUILD/mc.o -o $BUILD/c11_$v
+    echo "stdlib_$v $BUILD/c11_$v --only $SEL" >> $BUILD/runs.txt
+done
